@@ -57,7 +57,7 @@ func c06Select(nterms int) {
 	terms := make([]string, nterms)
 	for i := range terms {
 		if i == 1 || (i == 5 && nterms > 6) {
-			terms[i] = vWord("t", 2) // symbolic: may coincide with anything
+			terms[i] = vWord("t", 2)         // symbolic: may coincide with anything
 			_ = db.uIndex.postings[terms[i]] // case split: which indexed word (if any) it equals
 		} else {
 			terms[i] = vocab[(i*5+nterms)%len(vocab)]
@@ -150,5 +150,5 @@ func c06Superset(n int, symbolicDB bool) {
 	_ = strings.Join
 }
 
-func VerifHarness_C06_Superset3Q() { c06Superset(3, false) }
+func VerifHarness_C06_Superset3Q()  { c06Superset(3, false) }
 func VerifHarness_C06_Superset3Q3() { c06Words3 = true; c06Superset(3, false); c06Words3 = false }
